@@ -188,6 +188,7 @@ func main() {
 	os.MkdirAll(outDir, 0o755)
 	genJA3()
 	genCapture()
+	genH2Fp()
 	facts["issues"] = issues
 	keys := make([]string, 0, len(facts))
 	for k := range facts {
